@@ -761,13 +761,9 @@ class Fetcher:
         # Process the results for each title
         authors_dict = {}
         title: str
-        for title in self.titles_pending_contributor_lookup[api]:
-            # Skip if the title is not in the results (e.g., if it was redirected)
-            if title not in title_to_authors:
-                continue
-
-            # Get the InspectAuthors object for this title
-            inspect_authors = title_to_authors[title]
+        # (the titles just queried; the pending list is empty when a single
+        # title is looked up directly)
+        for title, inspect_authors in title_to_authors.items():
 
             # Get the authors for this title
             authors = inspect_authors.get_authors()
